@@ -587,16 +587,33 @@ class ForgetMark(MaskMixin, Strategy):
 class _Unary(MaskMixin, DisjointUnionStrategy):
     """Equivalence strategies: one child with exactly the same words."""
 
-    def __init__(self, mask=None, lazy=False, inferrable=True, possibly_empty=False, two_way=True, ignore_parent=True, reversible=True):
-        super().__init__(ignore_parent=ignore_parent, inferrable=inferrable, possibly_empty=possibly_empty, workable=True)
+    def __init__(self, mask=None, lazy=False, inferrable=True, possibly_empty=False, two_way=True, ignore_parent=True, reversible=True, empty_first=False):
+        super().__init__(ignore_parent=ignore_parent, inferrable=inferrable, possibly_empty=possibly_empty or empty_first, workable=True)
         self.mask = mask
         self.lazy = lazy
         self.two_way = two_way
         # a strategy may decline to be reversed (conservative, always legal) and still be two-way
         self.reversible = reversible
+        # empty_first: the rule is written as a union (E, child) with an obviously empty first child E that
+        # carries no statistics (its parameter map is {}): still an equivalence, but the non-empty child is
+        # not the first one and the two children have different parameter maps
+        self.empty_first = empty_first
 
     def _args_repr(self):
-        return ("" if self.two_way else "one_way") + ("" if self.ignore_parent else "+keep_parent") + ("" if self.reversible else "+irreversible")
+        return (
+            ("" if self.two_way else "one_way")
+            + ("" if self.ignore_parent else "+keep_parent")
+            + ("" if self.reversible else "+irreversible")
+            + ("+empty_first" if self.empty_first else "")
+        )
+
+    def _empty_child(self, c):
+        if not self.empty_first or not c.patterns:
+            return None
+        p = c.patterns[0]
+        if not all(l in c.alphabet for l in p):
+            return None
+        return c.replace(prefix=p, just_prefix=True, tracked=(), start_set=None, marks=1)
 
     def is_two_way(self, comb_class):
         # declaring a rule one-way is always allowed (conservative)
@@ -617,6 +634,9 @@ class _Unary(MaskMixin, DisjointUnionStrategy):
         ch = self.child(c)
         if ch is None or ch == c:
             return None
+        e = self._empty_child(c)
+        if e is not None:
+            return (e, ch)
         return (ch,)
 
     def extra_parameters(self, comb_class, children=None):
@@ -624,20 +644,34 @@ class _Unary(MaskMixin, DisjointUnionStrategy):
             children = self.decomposition_function(comb_class)
             if children is None:
                 raise StrategyDoesNotApply("Strategy does not apply")
+        if len(children) == 2:
+            return ({}, self.param_map(comb_class, children[1]))
         return (self.param_map(comb_class, children[0]),)
 
     def forward_map(self, comb_class, obj, children=None):
+        if children is None:
+            children = self.decomposition_function(comb_class)
+        if len(children) == 2:
+            return (None, obj)
         return (obj,)
 
     def to_jsonable(self):
         d = self._base_json()
         d["two_way"] = self.two_way
         d["reversible"] = self.reversible
+        d["empty_first"] = self.empty_first
         return d
 
     @classmethod
     def from_dict(cls, d):
-        return cls(d.get("mask"), d.get("lazy", False), two_way=d.get("two_way", True), ignore_parent=d.get("ignore_parent", True), reversible=d.get("reversible", True))
+        return cls(
+            d.get("mask"),
+            d.get("lazy", False),
+            two_way=d.get("two_way", True),
+            ignore_parent=d.get("ignore_parent", True),
+            reversible=d.get("reversible", True),
+            empty_first=d.get("empty_first", False),
+        )
 
 
 class ReducePatterns(_Unary):
@@ -1003,9 +1037,9 @@ _STRATS = {
     "SplitZeros": lambda s: SplitZeros(_mask(s), s.get("lazy", False)),
     "ForgetMark": lambda s: ForgetMark(_mask(s), s.get("lazy", False)),
     "RemoveFront": lambda s: RemoveFront(_mask(s), s.get("lazy", False), s.get("split", False), s.get("merge", False)),
-    "ReducePatterns": lambda s: ReducePatterns(_mask(s), s.get("lazy", False), two_way=s.get("two_way", True), ignore_parent=s.get("ignore_parent", True), reversible=s.get("reversible", True)),
-    "DropDeadStatistic": lambda s: DropDeadStatistic(_mask(s), s.get("lazy", False), two_way=s.get("two_way", True), ignore_parent=s.get("ignore_parent", True), reversible=s.get("reversible", True)),
-    "MergeDuplicateStatistics": lambda s: MergeDuplicateStatistics(_mask(s), s.get("lazy", False), two_way=s.get("two_way", True), ignore_parent=s.get("ignore_parent", True), reversible=s.get("reversible", True)),
+    "ReducePatterns": lambda s: ReducePatterns(_mask(s), s.get("lazy", False), two_way=s.get("two_way", True), ignore_parent=s.get("ignore_parent", True), reversible=s.get("reversible", True), empty_first=s.get("empty_first", False)),
+    "DropDeadStatistic": lambda s: DropDeadStatistic(_mask(s), s.get("lazy", False), two_way=s.get("two_way", True), ignore_parent=s.get("ignore_parent", True), reversible=s.get("reversible", True), empty_first=s.get("empty_first", False)),
+    "MergeDuplicateStatistics": lambda s: MergeDuplicateStatistics(_mask(s), s.get("lazy", False), two_way=s.get("two_way", True), ignore_parent=s.get("ignore_parent", True), reversible=s.get("reversible", True), empty_first=s.get("empty_first", False)),
     "TrackLetter": lambda s: TrackLetter(s.get("letter", 0), _mask(s), s.get("lazy", False), s.get("two_way", True), s.get("ignore_parent", True)),
     "Rename": lambda s: Rename(tuple(s["perm"]), _mask(s), s.get("lazy", False), s.get("two_way", False), s.get("ignore_parent", False)),
     "LetterPermutation": lambda s: LetterPermutation(tuple(s["perm"]), _mask(s), s.get("lazy", False)),
